@@ -21,6 +21,7 @@ import (
 	"context"
 	"encoding/json"
 	"fmt"
+	"io"
 	"io/fs"
 	"path"
 	"sort"
@@ -81,9 +82,11 @@ type File struct {
 	// key `summary` of about this many bytes, written before the other keys; PadList writes it
 	// as a YAML list of short items instead of one long scalar. The size of the block changes
 	// nothing about what it says.
-	Pad     int    `json:"pad,omitempty"`
-	PadList bool   `json:"pad_list,omitempty"`
-	K       string `json:"k,omitempty"` // front-matter `k:` value; "" = key absent
+	Pad     int  `json:"pad,omitempty"`
+	PadList bool `json:"pad_list,omitempty"`
+
+	fail bool   // only set by the "latefail" before-operation: the file ends in a failing call
+	K    string `json:"k,omitempty"` // front-matter `k:` value; "" = key absent
 }
 
 // Long describes a synthetic chain <dir>/c001.vuego -> c002 -> ... -> cN (-> Tail).
@@ -119,6 +122,28 @@ type Case struct {
 	// render is judged by the reference walker over the files present at that moment: which
 	// files exist is a fact about the filesystem now, not about what the engine has seen before.
 	Steps []Step `json:"steps,omitempty"`
+
+	// SameTemplate: the renders of this case (one, or one per "render" step of a history) use
+	// ONE loaded Template object, filled again before each render (tpl.Fill(data).Render), instead
+	// of a fresh Load per render.
+	SameTemplate bool `json:"same_template,omitempty"`
+
+	// Before: an operation that fails or is cut short, performed right before the case's own
+	// render(s) on the same goroutine. It uses the case's own files with recognisably different
+	// data (Fill k and fd suffixed "-STALE"); nothing of it may show in the case's render, which
+	// must simply meet the usual expectation.
+	//   "failwriter"  the chain is rendered into a writer that fails after a few bytes
+	//   "shortwriter" ... into a writer that accepts only part of the first write, without error
+	//   "cancel"      ... with a context that is already cancelled
+	//   "latefail"    the outermost file of the chain additionally ends in a call of an unknown
+	//                 function (after text and successful mustaches): the render fails late
+	//   "missingload" Load of a file that does not exist, Assign + Fill + Render on the result
+	// BeforeSame: the failing operation runs on the engine of the case (else on a fresh engine over
+	// the same files; "latefail" always uses a fresh engine because its files differ). If the
+	// case's own chain cannot end, "failwriter"/"shortwriter" additionally push a small
+	// terminating chain of another site through the same kind of writer first.
+	Before     string `json:"before,omitempty"`
+	BeforeSame bool   `json:"before_same,omitempty"`
 
 	// The filesystem the engine is given. The file set above is the UNION the engine must see;
 	// how it is physically stored must not matter.
@@ -330,6 +355,9 @@ func sourceFM(f File, isPage, withLayout bool) string {
 	sb.WriteString(`<div data-m="` + id + `"><b data-v="k">{{ k }}</b><b data-v="pg">{{ pg }}</b><b data-v="fd">{{ fd }}</b>`)
 	if !isPage {
 		sb.WriteString(`<div data-s="` + id + `" v-html="content"></div>`)
+	}
+	if f.fail {
+		sb.WriteString(" tail {{ fd }} {{ nosuchfn(k) }}")
 	}
 	sb.WriteString("</div>" + eol)
 	return sb.String()
@@ -558,6 +586,7 @@ type engine struct {
 	mems  []*memfs.FS    // the non-nil layers
 	byIdx []*memfs.FS    // layers by index (nil entries for nil layers)
 	at    map[string]int // path -> layer index
+	keep  vuego.Template // SameTemplate: the one Template object all renders go through
 }
 
 func newEngine(c Case) *engine {
@@ -565,14 +594,100 @@ func newEngine(c Case) *engine {
 	return &engine{root: vuego.NewFS(fsys), mems: mems, byIdx: byIdx, at: at}
 }
 
-func execute(c Case) result { return newEngine(c).render(c) }
+func execute(c Case) result {
+	e := newEngine(c)
+	e.before(c)
+	if c.SameTemplate {
+		// the kept Template object first goes through a render with stale data as well
+		e.renderTo(c, context.Background(), &fw.Capture{}, true)
+	}
+	return e.render(c)
+}
 
 // render performs one render of the case's page on this engine (budgets apply per render).
 func (e *engine) render(c Case) (res result) {
+	w := &sink{b: fw.Budget{Limit: writeBudget}}
+	res = e.renderTo(c, context.Background(), w, false)
+	res.out = w.Got
+	return res
+}
+
+// shortWriter accepts only part of the first write and reports no error (a broken io.Writer).
+type shortWriter struct{ n int }
+
+func (s *shortWriter) Write(p []byte) (int, error) {
+	s.n++
+	if s.n == 1 && len(p) > 1 {
+		return len(p) / 2, nil
+	}
+	return len(p), nil
+}
+
+// before performs the failing / aborted operation of c.Before. Its own outcome is not judged.
+func (e *engine) before(c Case) {
+	if c.Before == "" {
+		return
+	}
+	eng := e
+	if !c.BeforeSame || c.Before == "latefail" {
+		v := c
+		if c.Before == "latefail" {
+			v.Files = append([]File(nil), c.Files...)
+			doc := walk(c).doc()
+			last := doc[len(doc)-1].Path
+			if last == v.Page.Path {
+				v.Page.fail = true
+			}
+			for i := range v.Files {
+				if v.Files[i].Path == last {
+					v.Files[i].fail = true
+				}
+			}
+		}
+		eng = newEngine(v)
+	}
+	s := c
+	s.SameTemplate = false
+	mk := func() io.Writer {
+		if c.Before == "shortwriter" {
+			return &shortWriter{}
+		}
+		return &fw.FailAt{K: 7}
+	}
+	switch c.Before {
+	case "failwriter", "shortwriter":
+		if pl := walk(c); pl.out != oOK || len(pl.chain) > maxTemplates {
+			other := Case{Page: File{Path: "pages/p.vuego", Layout: "o1", K: "k-other-STALE"}, Files: []File{{Path: "layouts/o1.vuego", Layout: "o2"}, {Path: "layouts/o2.vuego"}}, FillK: "k-fill-STALE"}
+			newEngine(other).renderTo(other, context.Background(), mk(), true)
+		}
+		eng.renderTo(s, context.Background(), mk(), true)
+	case "cancel":
+		ctx, cancel := context.WithCancel(context.Background())
+		cancel()
+		eng.renderTo(s, ctx, &fw.Capture{}, true)
+	case "latefail":
+		eng.renderTo(s, context.Background(), &fw.Capture{}, true)
+	case "missingload":
+		_ = run.Safe(func() error {
+			t := eng.root.Load("pages/no-such-page.vuego").Assign("k", "k-assigned-STALE").Fill(map[string]any{"k": "k-fill-STALE", "fd": fdVal + "-STALE", "pg": "pg-STALE"})
+			return t.Render(context.Background(), &fw.Capture{})
+		})
+	}
+}
+
+// renderTo performs one render into w. stale: the Fill values carry the suffix "-STALE".
+func (e *engine) renderTo(c Case, ctx context.Context, w io.Writer, stale bool) (res result) {
 	for _, l := range e.mems {
 		l.ResetCounters()
 	}
 	layers := e.mems
+	fdVal := fdVal
+	if stale {
+		fdVal += "-STALE"
+		if c.FillK != "" {
+			c.FillK += "-STALE"
+		}
+	}
 	data := map[string]any{"fd": fdVal}
 	if c.FillK != "" {
 		data["k"] = c.FillK
@@ -613,7 +728,6 @@ func (e *engine) render(c Case) (res result) {
 			fill = fillNoK{Fd: fdVal}
 		}
 	}
-	w := &sink{b: fw.Budget{Limit: writeBudget}}
 	func() {
 		defer func() {
 			if r := recover(); r != nil {
@@ -625,14 +739,23 @@ func (e *engine) render(c Case) (res result) {
 			}
 		}()
 		// no goroutine, no clock: non-termination shows up as an exhausted budget
-		switch c.Via {
-		case "renderfile":
-			res.err = assign(e.root.New().Fill(fill)).RenderFile(context.Background(), w, c.Page.Path)
+		switch {
+		case c.Via == "renderfile" && c.SameTemplate:
+			if e.keep == nil {
+				e.keep = e.root.New()
+			}
+			res.err = assign(e.keep.Fill(fill)).RenderFile(ctx, w, c.Page.Path)
+		case c.Via == "renderfile":
+			res.err = assign(e.root.New().Fill(fill)).RenderFile(ctx, w, c.Page.Path)
+		case c.SameTemplate:
+			if e.keep == nil {
+				e.keep = e.root.Load(c.Page.Path)
+			}
+			res.err = assign(e.keep.Fill(fill)).Render(ctx, w)
 		default:
-			res.err = assign(e.root.Load(c.Page.Path).Fill(fill)).Render(context.Background(), w)
+			res.err = assign(e.root.Load(c.Page.Path).Fill(fill)).Render(ctx, w)
 		}
 	}()
-	res.out = w.Got
 	for _, l := range layers {
 		res.runaway = res.runaway || l.Runaway()
 	}
@@ -798,6 +921,7 @@ func checkHistory(c Case) error {
 		base.Overlay = &o
 	}
 	e := newEngine(base)
+	e.before(base)
 	described := map[string]File{}
 	for _, f := range base.Files {
 		described[f.Path] = f
@@ -1073,6 +1197,16 @@ func classify(c Case) (bool, []string) {
 	}
 	if len(c.Steps) > 0 {
 		cls = append(cls, historyClasses(c)...)
+	}
+	if c.Before != "" {
+		where := "fresh-engine"
+		if c.BeforeSame && c.Before != "latefail" {
+			where = "same-engine"
+		}
+		cls = append(cls, "after-failure:"+c.Before+"("+where+")")
+	}
+	if c.SameTemplate {
+		cls = append(cls, "same-template-object")
 	}
 	switch c.FillKind {
 	case "struct":
@@ -1571,6 +1705,13 @@ func genCase(t *rapid.T) Case {
 	if c.Page.Layout != "" {
 		c.LayoutVia = rapid.SampledFrom([]string{"", "", "", "", "fill", "assign"}).Draw(t, "layout.via")
 	}
+	if rapid.IntRange(0, 3).Draw(t, "before?") == 0 {
+		c.Before = rapid.SampledFrom(beforeKinds).Draw(t, "before")
+		c.BeforeSame = rapid.Bool().Draw(t, "before.same")
+	}
+	if c.LayoutVia == "" && rapid.IntRange(0, 3).Draw(t, "same.template") == 0 {
+		c.SameTemplate = true
+	}
 	// a history on one engine
 	if len(c.Files) > 0 && c.LayoutVia == "" && rapid.IntRange(0, 3).Draw(t, "history") == 0 {
 		c.Steps = []Step{{Op: "render"}}
@@ -1734,6 +1875,11 @@ func histories(s *stage) {
 			}
 			rotateFS(&d, i)
 			rotateFill(&d, i/2)
+			d.SameTemplate = i%2 == 0
+			if i%5 == 3 {
+				d.Before = beforeKinds[(i/5)%len(beforeKinds)]
+				d.BeforeSame = (i/5)%2 == 0
+			}
 			if !s.yield(d) {
 				return false
 			}
@@ -1823,6 +1969,21 @@ func padded(s *stage) {
 				}
 			}
 		}
+	}
+}
+
+var beforeKinds = []string{"failwriter", "latefail", "shortwriter", "missingload", "failwriter", "cancel"}
+
+// rotateAfterFailure makes a rotating fraction of the cases (one in `every`) start with a failing
+// or aborted operation, and a further fraction go through one kept Template object.
+func rotateAfterFailure(c *Case, i, every int) {
+	if i%every == 0 {
+		j := i / every
+		c.Before = beforeKinds[j%len(beforeKinds)]
+		c.BeforeSame = (j/len(beforeKinds))%2 == 1
+	}
+	if i%every == every/2 && c.LayoutVia == "" {
+		c.SameTemplate = true
 	}
 }
 
@@ -1955,6 +2116,7 @@ func overlaySplits(s *stage) {
 			rotateSpell(&d, i)
 			rotateFill(&d, i)
 			rotatePad(&d, i)
+			rotateAfterFailure(&d, i, run.Pick(5, 2))
 			if !s.yield(d) {
 				return false
 			}
@@ -1988,6 +2150,7 @@ func longChains(s *stage) {
 					}
 					rotateFS(&c, s.n)
 					rotateSpell(&c, s.n)
+					rotateAfterFailure(&c, s.n, 3)
 					c.Page.NoBody = "" // keep the long chains fully observable
 					for j := range c.Files {
 						c.Files[j].NoBody = ""
@@ -2054,6 +2217,7 @@ func shapes(s *stage) {
 					rotateSpell(&c, i)
 					rotateFill(&c, i/2)
 					rotatePad(&c, i)
+					rotateAfterFailure(&c, i, run.Pick(5, 2))
 					if !viaDefault && L > 0 {
 						switch i % 6 {
 						case 1:
@@ -2100,6 +2264,7 @@ func allGraphs(s *stage, slots []string) {
 		rotateEmpty(&c, i/5)
 		rotateSpell(&c, i)
 		rotateFill(&c, i/3)
+		rotateAfterFailure(&c, i, run.Pick(8, 2))
 		if run.Thorough() {
 			rotatePad(&c, i) // quick: front-matter sizes are covered by the pad, overlay, shape and random stages
 		}
